@@ -59,22 +59,23 @@ def tree_of(img):
     return out
 
 
-def roundtrip(tools, work, tag, names, targets, unpack_root):
+def roundtrip(tools, work, tag, names, targets, unpack_root, rootname="un"):
     d = work + "/" + tag
-    os.makedirs(d + "/un", exist_ok=True)
+    un = d + "/" + rootname          # the unpack root: its name goes through the same printer when --unpack-root is used
+    os.makedirs(un, exist_ok=True)
     img = d + "/orig.sqfs"
     orig = tree_of(build_image(names, targets, img))
-    args = [tools + "/rdsquashfs", "-d"] + (["-p", d + "/un"] if unpack_root else []) + [img]
+    args = [tools + "/rdsquashfs", "-d"] + (["-p", un] if unpack_root else []) + [img]
     rc, listing, e = sh(args, timeout=60)
     if rc != 0:
         return [("describe-fails", "rdsquashfs --describe fails: %s" % e.decode(errors="replace")[-200:], None)], 0
-    rc, o, e = sh([tools + "/rdsquashfs", "-q", "-u", "/", "-p", d + "/un", img], timeout=120)
+    rc, o, e = sh([tools + "/rdsquashfs", "-q", "-u", "/", "-p", un, img], timeout=120)
     if rc != 0:
         return [("unpack-fails", "rdsquashfs -u fails: %s" % e.decode(errors="replace")[-200:], None)], 0
     lf = d + "/list.txt"
     open(lf, "wb").write(listing)
     out = d + "/re.sqfs"
-    cmd = [tools + "/gensquashfs", "-q", "-f", "-c", "gzip", "-b", "4096", "-F", lf] + ([] if unpack_root else ["-D", d + "/un"]) + [out]
+    cmd = [tools + "/gensquashfs", "-q", "-f", "-c", "gzip", "-b", "4096", "-F", lf] + ([] if unpack_root else ["-D", un]) + [out]
     rc, o, e = sh(cmd, timeout=120)
     bad = []
     n_ok = 0
@@ -97,7 +98,7 @@ def roundtrip(tools, work, tag, names, targets, unpack_root):
                 continue
             one = d + "/one.txt"
             open(one, "wb").write(ln + b"\n")
-            rc1, o1, e1 = sh([tools + "/gensquashfs", "-q", "-f", "-F", one] + ([] if unpack_root else ["-D", d + "/un"]) + [d + "/one.sqfs"], timeout=30)
+            rc1, o1, e1 = sh([tools + "/gensquashfs", "-q", "-f", "-F", one] + ([] if unpack_root else ["-D", un]) + [d + "/one.sqfs"], timeout=30)
             if rc1 != 0:
                 bad.append(("describe-rejected", "gensquashfs rejects the line %r: %s" % (ln, e1.decode(errors="replace").strip()[-120:]), ln))
             else:
@@ -173,7 +174,7 @@ def run(tier):
     cfg = work + "/d.cfg"
     MN, MX = (3, 2) if tier == "quick" else (4, 3)
     chars = '{"p","s","t","q","b","h","w"}'
-    write_cfg(cfg, spec="Spec", constants={"MaxName": MN, "MaxExtra": MX, "QuoteOnTabAndBackslash": True, "QuoteExtra": True, "QuoteOnOtherSpace": True},
+    write_cfg(cfg, spec="Spec", constants={"MaxName": MN, "MaxExtra": MX, "QuoteOnTabAndBackslash": True, "QuoteExtra": True, "QuoteOnOtherSpace": True, "LocationQuoteByWhole": True},
               defs={"Chars": chars}, invariants=["RoundTrip"], deadlock=False)
     r = run_tlc("Describe", cfg, workers=16, timeout=1800)
     ev.tlc(r, "Describe names<=%d extras<=%d" % (MN, MX))
@@ -182,9 +183,9 @@ def run(tier):
         ev.write()
         return 2
     devres = {}
-    for name, q1, q2, q3 in [("EscapeQuoteOnly+QuoteOnlyOnSpace(pre-fix printer)", False, True, True), ("TargetVerbatim(pre-fix printer)", True, False, True),
-                             ("OtherWhiteSpaceUnquoted(pre-fix printer)", True, True, False)]:
-        write_cfg(cfg, spec="Spec", constants={"MaxName": 2, "MaxExtra": 2, "QuoteOnTabAndBackslash": q1, "QuoteExtra": q2, "QuoteOnOtherSpace": q3},
+    for name, q1, q2, q3, q4 in [("EscapeQuoteOnly+QuoteOnlyOnSpace(pre-fix printer)", False, True, True, True), ("TargetVerbatim(pre-fix printer)", True, False, True, True),
+                                 ("OtherWhiteSpaceUnquoted(pre-fix printer)", True, True, False, True), ("LocationQuotedByPathOnly", True, True, True, False)]:
+        write_cfg(cfg, spec="Spec", constants={"MaxName": 2, "MaxExtra": 2, "QuoteOnTabAndBackslash": q1, "QuoteExtra": q2, "QuoteOnOtherSpace": q3, "LocationQuoteByWhole": q4},
                   defs={"Chars": chars}, invariants=["RoundTrip"], deadlock=False)
         r = run_tlc("Describe", cfg, workers=4, timeout=600)
         ev.tlc(r, "dev " + name)
@@ -207,13 +208,18 @@ def run(tier):
     total_ok = 0
     replays = 0
     jobs = []
+    # unpack roots of every character class (spec: kind "ufile", the location is <root>/<path> printed as one field)
+    ROOTS = ["un", "my root", "tab\troot", 'quo"te', "back\\slash", " lead", "#hash", "cr\rx", "mix \"q\\ x"]
     for bi, b in enumerate(batches):
         for ur in (False, True):
-            jobs.append((bi, b, ur))
+            jobs.append((bi, b, ur, "un"))
+    plainish = [n for n in names if all(c in b"abcdefghijklmnopqrstuvwxyz0123456789._-" for c in n)][:20] + names[:40]
+    for ri, rn in enumerate(ROOTS[1:]):
+        jobs.append((1000 + ri, plainish, True, rn))
 
     def do(j):
-        bi, b, ur = j
-        return j, roundtrip(tools, work, "b%d_%d" % (bi, ur), b, targets, ur)
+        bi, b, ur, rn = j
+        return (bi, b, ur), roundtrip(tools, work, "b%d_%d" % (bi, ur), b, targets, ur, rootname=rn)
 
     seen = set()
     with ThreadPoolExecutor(max_workers=8) as ex:
